@@ -86,7 +86,8 @@ def run_case(job):
                     f'include("{os.path.join(common.REPO_ROOT, "cmake", "cminx.cmake")}")\n'
                     f'{call}\n'
                     f'message(STATUS "REACHED-AFTER-CALL")\n')
-        env = dict(os.environ, CMINXDIR=box.path("cfg"), HOME=box.path("home"), XDG_CONFIG_HOME=box.path("home", ".config"))
+        env = dict(os.environ, CMINXDIR=box.path("cfg"), HOME=box.path("home"), XDG_CONFIG_HOME=box.path("home", ".config"),
+                   PWD=box.path("stale-pwd"))
         pc = subprocess.run(["cmake", "-P", driver], cwd=cwd, env=env, capture_output=True, text=True)
         isdir = os.path.isdir(os.path.join(cwd, target))
         want = [target] + (["-r"] if isdir else []) + extra + ["-o", out_cm]
@@ -154,7 +155,8 @@ def run_sequence(job):
         with open(wrapper, "w") as f:
             f.write(f"#!/bin/sh\nexec {common.PYTHON} -c \"{CLI % common.REPO_SRC}\" \"$@\"\n")
         os.chmod(wrapper, os.stat(wrapper).st_mode | stat.S_IEXEC)
-        env = dict(os.environ, CMINXDIR=box.path("cfg"), HOME=box.path("home"), XDG_CONFIG_HOME=box.path("home", ".config"))
+        env = dict(os.environ, CMINXDIR=box.path("cfg"), HOME=box.path("home"), XDG_CONFIG_HOME=box.path("home", ".config"),
+                   PWD=box.path("stale-pwd"))
         out_cm, out_cli = os.path.join(work, "out-cmake"), os.path.join(work, "out-cli")
         isdir = os.path.isdir(target)
         victim = os.path.join(target, "sub", "deep", "c.cmake") if inp == "nested" else \
